@@ -213,3 +213,15 @@ Proof.
   split; [apply gen_getCenterPointOnVoxelOffset_centerLon_eq|]. split; [apply gen_getCenterPointOnVoxelOffset_centerLat_eq|].
   apply gen_getCenterPointOnVoxelOffset_centerAlt_eq.
 Qed.
+
+(* ---- the row index of getVertexOnVoxelOffset as regenerated (the local latIndexFloat after the clamp): it is GenEqFVertex.clamp_row — rows
+   below 0 give row 0, rows from 2^h - 1 on give the last row, every row in between is itself (evaluated at the ends of three zooms) ---- *)
+Theorem gen_row_is_the_clamped_row x y h alt res : GeneratedF.getVertexOnVoxelOffset_latIndexFloat x y h alt res = clamp_row y h.
+Proof. exact (gen_getVertexOnVoxelOffset_latIndexFloat_eq x y h alt res). Qed.
+Example gen_row_clamp_evaluated :
+  map (fun y => GeneratedF.getVertexOnVoxelOffset_latIndexFloat 0 y 3 0%float 1%float) [-5; -1; 0; 1; 6; 7; 8; 100]
+    = [0; 0; 0; 1; 6; 7; 7; 7]%float /\
+  GeneratedF.getVertexOnVoxelOffset_latIndexFloat 0 (2 ^ 35 - 1) 35 0%float 1%float = of_Z (2 ^ 35 - 1) /\
+  GeneratedF.getVertexOnVoxelOffset_latIndexFloat 0 (2 ^ 35) 35 0%float 1%float = of_Z (2 ^ 35 - 1) /\
+  GeneratedF.getVertexOnVoxelOffset_latIndexFloat 0 5 0 0%float 1%float = 0%float.
+Proof. repeat split; vm_compute; reflexivity. Qed.
